@@ -148,6 +148,12 @@ int main (int argc, char** argv)
     out_vec ("g", s1); out_vec ("w", t);
     if (!symbolic) for (unsigned i=0; i<4; i++) expect ("compute_stokes(J e) = transform(compute_stokes e, J)", s1[i], t[i]);
   });
+  // scalar multiples and sums of spinors: a e, e a, e + f, e / a, component by component
+  fn ("spinor_linear_ops", [] { cd x = complex_in ("x"), y = complex_in ("y"), u = complex_in ("u"), v = complex_in ("v"); double a = in ("a", 0.5, 2);
+    Spinor<double> e (x, y), f (u, v); Spinor<double> l = a * e, r = e * a, sm = e + f, q = e; q /= a;
+    out ("lx", l.x); out ("ly", l.y); out ("rx", r.x); out ("ry", r.y); out ("sx", sm.x); out ("sy", sm.y); out ("qx", q.x); out ("qy", q.y);
+    out ("wlx", a * x); out ("wly", a * y); out ("wrx", x * a); out ("wry", y * a); out ("wsx", x + u); out ("wsy", y + v); out ("wqx", x / a); out ("wqy", y / a);
+    if (!symbolic) { expect ("a e", l.x, a * x); expect ("a e", l.y, a * y); expect ("e a", r.x, x * a); expect ("e a", r.y, y * a); expect ("e + f", sm.x, x + u); expect ("e + f", sm.y, y + v); expect ("e / a", q.x, x / a); expect ("e / a", q.y, y / a); } });
   // detection agrees with the coherency matrix e e^dagger
   fn ("detect_lin", [] { set_lin ();
     cd x = complex_in ("x"), y = complex_in ("y"); Spinor<double> e (x, y);
